@@ -53,6 +53,8 @@ let class_pred (name : string) : chr -> bool =
   | "any" -> (fun _ -> true)
   | "nl" -> mem ["CR"; "LF"]
   | "wide" -> mem ["w3"; "w4"; "z3"; "z2"]
+  | "cr" -> mem ["CR"]
+  | "notlf" -> (fun c -> sym_of_chr c <> "LF")
   | _ -> failwith ("unknown class " ^ name)
 
 let mkpos b l c : pos = { byte = nat_of_int b; line = nat_of_int l; col = nat_of_int c }
